@@ -5,6 +5,8 @@ Space (every member is visited, nothing sampled)
             configuration, with <= 2 (thorough 3) distinct ordered alternatives per symbol, alternative
             length <= 2 (3) and total size <= the bound (size = sum of max(1, len(alternative)));
             configurations: letters a,b / a; keyword+synonym configuration WORD / IF / '+'.
+  split   : directed family "shared leading part in alternatives that are not adjacent"
+            (models.grammar.family_split): roll-back between alternatives with children already collected.
   prefix  : directed family for factorization (models.grammar.family_prefix): common prefixes of length
             1-3 starting with a terminal or a non-terminal, 2-7 remainders (crossing the "more than 5
             alternatives" rule of smart factorization), nested common prefixes, nullable remainders.
@@ -52,10 +54,12 @@ REQUIRED_FEATURES = ["grammar:nullable", "grammar:ambiguous-table", "grammar:com
 _SPACES = {
     # (kind, non-terminals, cfg key, max_alts, max_len, max_size, input length, shards)
     "quick": [("sized", "EA", "ab", 2, 2, 5, 4, 32), ("sized", "EAB", "a", 2, 2, 5, 4, 32),
-              ("sized", "EA", "kw", 2, 2, 4, 3, 16), ("prefix", "EA", "ab", 0, 0, 0, 4, 48)],
+              ("sized", "EA", "kw", 2, 2, 4, 3, 16), ("prefix", "EA", "ab", 0, 0, 0, 4, 48),
+              ("split", "EA", "ab", 0, 0, 0, 4, 8)],
     "thorough": [("sized", "EA", "ab", 3, 3, 6, 5, 64), ("sized", "EA", "ab", 3, 3, 7, 4, 200),
                  ("sized", "EAB", "a", 2, 3, 6, 5, 64), ("sized", "EAB", "ab", 2, 2, 5, 4, 48),
-                 ("sized", "EA", "kw", 2, 2, 5, 3, 48), ("prefix", "EA", "ab", 0, 0, 0, 5, 64)],
+                 ("sized", "EA", "kw", 2, 2, 5, 3, 48), ("prefix", "EA", "ab", 0, 0, 0, 5, 64),
+                 ("split", "EA", "ab", 0, 0, 0, 5, 16)],
 }
 # the prefix family is enumerated completely in both tiers; the tiers differ in its input length only
 
@@ -72,6 +76,10 @@ def bounds(tier):
             out.append({"space": "sized", "non_terminals": list(nts), "terminals": list(cfg.terms),
                         "max_alternatives": ma, "max_alt_len": ml, "max_total_size": ms,
                         "grammars": G.count_sized(len(nts), len(cfg.terms), ma, ml, ms),
+                        "input_len_max": L, "inputs_per_mode": len(G.all_inputs(cfg, L))})
+        elif kind == "split":
+            out.append({"space": "split-family (shared leading part, not adjacent)",
+                        "grammars": sum(1 for _ in G.family_split(cfg.terms)),
                         "input_len_max": L, "inputs_per_mode": len(G.all_inputs(cfg, L))})
         else:
             out.append({"space": "prefix-family" + ("" if tier == "thorough" else " (reduced)"),
@@ -179,6 +187,8 @@ def _grammars(tier, shard):
     cfg = _cfg(key)
     if kind == "sized":
         gen = G.enum_sized(tuple(nts), cfg.terms, ma, ml, ms, (k, K))
+    elif kind == "split":
+        gen = (g for j, g in enumerate(G.family_split(cfg.terms, tuple(nts))) if j % K == k)
     else:
         gen = (g for j, g in enumerate(G.family_prefix(cfg.terms, tuple(nts), full=(tier == "thorough")))
                if j % K == k)
